@@ -1058,7 +1058,8 @@ pub fn generate(ctx: &mut GenCtx) {
         emit(ctx, "struct", &BTreeMap::new(), &b_, &a);
     }
     // larger shapes
-    let nbig = if ctx.thorough { 1500 } else { 160 };
+    // thorough counts chosen so that the tier stays under ~10 min on a loaded machine (measured: 1500/30000 -> 610 s)
+    let nbig = if ctx.thorough { 1100 } else { 160 };
     for k in 0..nbig {
         let kind = BIG_KINDS[k % BIG_KINDS.len()];
         let n = 6 + ctx.rng.below(if ctx.thorough { 59 } else { 35 });
@@ -1079,7 +1080,7 @@ pub fn generate(ctx: &mut GenCtx) {
         let gen_ = G7 { bn: 3, star: true, generalized: false, nlabels: 3 };
         variants(ctx, &gen_, &d, graph_only);
     }
-    let n = if ctx.thorough { 30000 } else { 2000 };
+    let n = if ctx.thorough { 21000 } else { 2000 };
     for i in 0..n {
         let gen_ = G7 {
             bn: 2 + ctx.rng.below(5),
@@ -1118,8 +1119,7 @@ pub fn generate(ctx: &mut GenCtx) {
             let k = if graph_only && ctx.rng.chance(1, 2) { "g" } else { "d" };
             let (f1, f2) = (pf(&mut ctx.rng, d.len()), pf(&mut ctx.rng, d2.len()));
             ctx.stats.bump(&format!("errpath.{}.{}{}", k, if f1 == "-" { "ok" } else { "f" }, if f2 == "-" { "ok" } else { "f" }));
-            let dd: Vec<Q> = if k == "g" { d.clone() } else { d.clone() };
-            ctx.emit(&format!("isoerr {} {} {} {} | {}", k, f1, f2, qs(&dd), qs(&d2)));
+            ctx.emit(&format!("isoerr {} {} {} {} | {}", k, f1, f2, qs(&d), qs(&d2)));
         }
         // two unrelated datasets
         if i % 4 == 0 {
